@@ -15,7 +15,7 @@ def run(ctx):
     recs = []
     seeds = [ctx.seed] if q else [ctx.seed + i for i in range(4)]
     for s in seeds:
-        recs += smf.gen(ctx, "sched", 150 if q else 1200, s + 400, "c09", big=not q)
+        recs += smf.gen(ctx, "sched", 150 if q else 1200, s + 400, "c09", big=True)
     fails = smf.validate(ctx, recs)
     nruns = sum(int(r["runs"][-1]["sched"].split(":")[1]) + len(r["runs"]) - 1 for r in recs)
     ctx.count(nruns, [hash(bytes(r["bytes"])) + r["cut"] for r in recs if len(r["bytes"]) > 30],
